@@ -34,7 +34,9 @@ func main() {
 			}
 			return nil
 		}
-		if !strings.HasSuffix(path, ".go") || strings.HasSuffix(path, "_test.go") {
+		if !strings.HasSuffix(path, ".go") || strings.HasSuffix(path, "_test.go") || strings.HasPrefix(info.Name(), "verif_") {
+			// verif_*.go are the verification hooks themselves (their counters must not become
+			// scheduling points)
 			return nil
 		}
 		src, err := os.ReadFile(path)
